@@ -351,6 +351,49 @@ func c10Hint(c *Ctx) {
 		}
 		return false
 	})
+	if !incOK {
+		// two-pass form: a validation loop over the positions of the polynomial returns an
+		// error whenever positions[j-1] >= positions[j]; the loop that sets the bits is
+		// reached only when that loop has run to its end
+		for _, fr := range guard.Returns(f) {
+			if !guard.DefinitelyFails(fr) {
+				continue
+			}
+			for _, fct := range guard.BlockFacts(fr.Block()) {
+				op, x, y, ok := guard.Cmp(fct)
+				if !ok || op != token.GEQ {
+					continue
+				}
+				ux, okx := guard.Strip(x).(*ssa.UnOp)
+				uy, oky := guard.Strip(y).(*ssa.UnOp)
+				if !okx || !oky {
+					continue
+				}
+				ia, a := ux.X.(*ssa.IndexAddr)
+				ib, b := uy.X.(*ssa.IndexAddr)
+				if !a || !b || guard.Strip(ia.X) != guard.Strip(ib.X) || !inCycle(ia.Block()) {
+					continue
+				}
+				// previous = current - 1
+				prevOK := false
+				if sub, isSub := guard.Strip(ia.Index).(*ssa.BinOp); isSub && sub.Op == token.SUB && guard.Strip(sub.X) == guard.Strip(ib.Index) {
+					if k, isK := guard.ConstInt(sub.Y); isK && k == 1 {
+						prevOK = true
+					}
+				}
+				if !prevOK {
+					continue
+				}
+				// the checked slice is the one whose elements are the set positions, and the
+				// validation loop's header dominates the set
+				for _, blk := range f.Blocks {
+					if inCycle(blk) && natLoop(blk)[ia.Block()] && !natLoop(blk)[set.Block()] && blk.Dominates(set.Block()) {
+						incOK = true
+					}
+				}
+			}
+		}
+	}
 	r.Check(incOK, "C10.hint", "C10.hint/increasing indices", p.Pos(set.Pos()), "a hint index that is not greater than its predecessor inside the same polynomial can be accepted", "every path: first index of the polynomial, or previous < current")
 	// padding
 	padOK := false
@@ -372,6 +415,41 @@ func c10Hint(c *Ctx) {
 							}
 						}
 					}
+				}
+			}
+		}
+	}
+	if !padOK {
+		// slices.ContainsFunc(encoded[start:omega], func(b byte) bool { return b != 0 }) leads to the error
+		for _, sr := range guard.SuccessReturns(f) {
+			for _, fct := range guard.BlockFacts(sr.Block()) {
+				pc, val, isB := guard.BoolCallFact(fct)
+				if !isB || val || !strings.HasPrefix(guard.CalleeName(&pc.Call), "slices.ContainsFunc") || len(pc.Call.Args) != 2 {
+					continue
+				}
+				var pred *ssa.Function
+				switch pv := guard.Strip(pc.Call.Args[1]).(type) {
+				case *ssa.Function:
+					pred = pv
+				case *ssa.MakeClosure:
+					pred, _ = pv.Fn.(*ssa.Function)
+				}
+				if pred == nil || len(pred.Params) != 1 {
+					continue
+				}
+				nonZero := true
+				for _, pr := range guard.Returns(pred) {
+					bo, isBO := pr.Results[0].(*ssa.BinOp)
+					if !isBO || bo.Op != token.NEQ || guard.Strip(bo.X) != ssa.Value(pred.Params[0]) {
+						nonZero = false
+						continue
+					}
+					if k, isK := guard.ConstInt(bo.Y); !isK || k != 0 {
+						nonZero = false
+					}
+				}
+				if sl, isSl := guard.Strip(pc.Call.Args[0]).(*ssa.Slice); isSl && nonZero && guard.Strip(sl.X) == ssa.Value(f.Params[1]) && sl.High != nil && isOmega(sl.High) {
+					padOK = true
 				}
 			}
 		}
